@@ -5,13 +5,43 @@ import json, subprocess
 HOOK_COMMITS = ["3a82b44"]
 
 # id -> (category, technique, text, note, design_ref)
+MC = "model_checking"
+FE = "fault_enumeration"
+TB = "Trusted: Go toolchain/runtime; harness/ref (from-the-spec codec, pinned by the 416 conformance sha256 values); klauspost/zstd, pierrec/lz4 and hash/crc32 shared with go/mcap. Bounds (depths, alphabets, sizes) are printed in the evidence file; nothing is claimed outside them."
+WS = "stateless exhaustive exploration of the real writer/readers over every legal call sequence x configuration sub-product (explore.Choose choice tree, process-sharded)"
 CHECKS = {
- "C05": ("model_checking", "stateless exhaustive exploration of writer call sequences x configurations, spec validator oracle",
-         "Every legal writer call sequence up to the stated depth over the DESIGN §3 alphabets, times exhaustively enumerated sub-products of the writer configuration (all 1024 flag combinations x CRC x chunk modes; compression x level x custom codec), is run on the real writer; every emitted record, pointer, size and time field of every output file is checked by a decoder/validator written from the specification that shares no code with go/mcap. Bounded-exhaustive: holds for all executions inside the bounds, says nothing beyond them.",
-         "Trusted: harness/ref (from-the-spec codec), klauspost/zstd and pierrec/lz4 for chunk payloads, Go toolchain. Bounds: operation depth and alphabets as printed in the evidence file.", "DESIGN §4 C05"),
- "C06": ("model_checking", "stateless exhaustive exploration of writer call sequences x configurations, independent CRC recomputation",
-         "Same enumeration as C05; the data-section, summary, chunk and attachment CRC of every produced file are recomputed from the file bytes over the byte ranges the specification defines and compared (must be zero for the first three when checksums are off).",
-         "Trusted: hash/crc32, harness/ref. Bounds as printed in the evidence file.", "DESIGN §4 C06"),
+ "C01": (MC, WS + "; oracle = call-log reference model incl. stability of returned values",
+         "Every legal writer call sequence up to the stated depth x exhaustively enumerated configuration sub-products is written by the real writer and read back through 4 lexer variants and the non-indexed iterator in 4 calling modes; every field of every record is compared with the call log, order and channel/schema binding included, and values returned by allocating calls are re-checked after the read.", TB, "DESIGN §4 C01"),
+ "C02": (MC, WS + "; differential oracle index-based read vs scan, random access through every index entry",
+         "Same enumeration; for indexable configurations the file-order indexed sequence must equal the scan element-wise (time orders: permutation), for all others equal-or-error; every attachment/metadata index entry is dereferenced and compared; metadata callback counted on both paths.", TB, "DESIGN §4 C02"),
+ "C03": (MC, "exhaustive enumeration of chunk/timestamp arrangements built by the reference encoder, run through the real indexed iterator",
+         "Every file of <=3 chunks x <=3 messages over a 4-value time domain (plus two-channel, compressed and >12-element tie families) is read in file, log-time and reverse order twice; oracle: exactly-once, monotone, file order among same-chunk ties, repeatable.", TB, "DESIGN §4 C03"),
+ "C04": (MC, "exhaustive enumeration of files x windows x option spellings x topic sets x read modes against the model filter",
+         "For every small arrangement, every window over the critical time set expressed through each of 9 option spellings, every topic set and 4 read modes must return exactly the messages the model filter selects.", TB, "DESIGN §4 C04"),
+ "C05": (MC, WS + "; spec validator oracle",
+         "Every emitted record, pointer, size and time field of every output file is checked by a decoder/validator written from the specification that shares no code with go/mcap.", TB + " Leniency: a non-zero summary_offset_start designating an empty section is accepted.", "DESIGN §4 C05"),
+ "C06": (MC, WS + "; independent CRC recomputation",
+         "Data-section, summary, chunk and attachment CRCs of every produced file are recomputed from the file bytes over the byte ranges the specification defines (zero for the first three when checksums are off).", TB, "DESIGN §4 C06"),
+ "C07": (FE, "exhaustive single-bit-flip (and small multi-byte) fault enumeration over chunk payloads and attachment records, real validating lexer",
+         "Every single-bit flip of every byte of every chunk's stored records field and of every attachment record's content is applied to written files (none/zstd/lz4) and read with the validating lexer (with and without invalid-chunk tokens): altered data must never be delivered as good; thorough adds bit pairs, 2-byte overwrites and range swaps.", TB + " An error that errors.Is(io.EOF) with records missing does not count as a report.", "DESIGN §4 C07"),
+ "C08": (MC, WS + "; oracle = aggregates of the call log vs Writer.Statistics, statistics record and Info",
+         "Writer.Statistics after Close, the statistics record decoded by the reference decoder and Reader.Info must equal the true aggregates of the call log; Info listings must equal the summary groups the file keeps.", TB, "DESIGN §4 C08"),
+ "C09": (FE, "crash-point enumeration: every truncation position of every small written file, read by lexer and non-indexed iterator",
+         "Every prefix 0..len-1 of files (unchunked/none/zstd/lz4, CRC on/off, attachments and metadata between chunks) must read as a prefix of the original records, end with EOF or an error, never panic, and contain every message of every chunk completely before the cut.", TB, "DESIGN §4 C09"),
+ "C11": (MC, "exhaustive enumeration of unknown-record insertion positions and record tails on reference-encoded files, differential against the un-augmented file",
+         "An unknown record (4 opcodes x 4 lengths) at every legal position (top level, inside chunks, summary boundaries), at all positions at once, and tails on every extensible record kind must leave everything the Go readers report unchanged.", TB, "DESIGN §4 C11"),
+ "C12": (MC, "exhaustive enumeration of legal layouts of fixed logical contents by the reference encoder, read by all Go readers",
+         "Chunk partitions (incl. empty chunks), per-chunk compression, schema/channel placement, all 720 summary group orders and all 256 optional-section subsets (all pairs of dimensions in quick, full product for small contents in thorough): every reader must return the logical content.", TB, "DESIGN §4 C12"),
+ "C14": (FE, "deviation-bounded exhaustive sink/attachment-source fault enumeration on the real writer",
+         "Every destination Write call of every workload x configuration is failed in turn (error / short count / ErrShortWrite, transient and sticky): the call it hits must return an error, nothing may panic, accepted bytes must stay a prefix of the fault-free output (checked after every write); every attachment source failure/early/late end must be reported.", TB + " Contract-violating sinks (short count, nil error) are out of scope.", "DESIGN §4 C14"),
+ "C15": (FE, "exhaustive delivery-policy and source-error enumeration on the real lexer/iterators/Info",
+         "Every file x 7 readers x {full, 1-byte, halving, 7-byte, data+EOF, a short read at every k-th Read} and an injected non-EOF error at every byte position / k-th Seek (sticky and one-shot): results must not depend on delivery, and after an error the results are a prefix ending in a non-EOF error.", TB, "DESIGN §4 C15"),
+ "C17": (MC, "complete enumeration of the finite conformance matrix (416 vectors), tools rebuilt from the tree",
+         "All 416 expectations: binaries regenerated by the reference encoder and pinned by the LFS sha256; read tool streamed on all, indexed on the admitted variants, write tool byte-exact on the 208 non-padded ones.", TB, "DESIGN §4 C17"),
+ "C19": (MC, "exhaustive enumeration of small type graphs, short strings and definition mutations in isolated worker processes",
+         "Every type graph at the stated scope (incl. cyclic) must parse to the generating tree (acyclic) and every input - all strings up to length L over a 9-symbol alphabet, all single-token mutations - must return ok/error inside a worker with capped address space and stack, never die or stall.", TB, "DESIGN §4 C19"),
+ "C20": (MC, "exhaustive small arrangements plus deterministic large families with the verif slot hook; attachment streaming measured in an idle worker",
+         "After every NextInto the hook-reported chunk slots must stay within the model's overlap depth (1 in file order) for every <=3x3 arrangement and for N in {10,100,1000} x depth 1..8 x 3 shapes; buffers bounded by the largest chunk; attachments up to 16 MiB/256 MiB stream through writer, lexer and iterator in constant memory.", TB + " Memory oracles use generous fixed slack and no time component.", "DESIGN §4 C20"),
 }
 
 ALL = ["C%02d" % i for i in range(1, 21)]
